@@ -471,4 +471,481 @@ theorem nameFixed_exact (l : Lang) (tags : List TagRow) (ht : l.tags = some tags
   rw [he]
   exact nameFixed_token l tags ht tp' d (decTag_idem tags _ _ d hd)
 
+/-! ### Which attribute start row `wbxml_tables_get_attr_from_xml` picks -/
+
+/-- A row with that name whose value is exactly the attribute's value. -/
+def isExactRow (name value : Bytes) (r : AttrRow) : Bool := r.name == name && r.value == some value
+
+/-- Length of the row's value prefix if the row has that name and its value is a proper prefix of
+    the attribute's value; `0` otherwise (an empty prefix is never chosen for its length). -/
+def preLenOf (name value : Bytes) (r : AttrRow) : Nat :=
+  if r.name == name then
+    match r.value with
+    | some v => if v.length < value.length && isPrefixOf v value then v.length else 0
+    | none => 0
+  else 0
+
+/-- A row with that name and no value (NULL). -/
+def isNullRow (name : Bytes) (r : AttrRow) : Bool := r.name == name && r.value.isNone
+
+def maxFrom (name value : Bytes) (m : Nat) (rows : List AttrRow) : Nat :=
+  rows.foldl (fun m r => max m (preLenOf name value r)) m
+
+/-- The scan of `wbxml_tables_get_attr_from_xml` in closed form, from a scan state. -/
+def attrChoice (name value : Bytes) (rows : List AttrRow) (st : AttrScan) : Option (AttrRow × Nat) :=
+  match rows.find? (isExactRow name value) with
+  | some e => some (e, value.length)
+  | none =>
+    if st.comp < maxFrom name value st.comp rows then
+      (rows.find? (fun r => preLenOf name value r == maxFrom name value st.comp rows)).map
+        (fun r => (r, maxFrom name value st.comp rows))
+    else
+      match st.found with
+      | some f => some (f, st.comp)
+      | none => (rows.find? (isNullRow name)).map (fun r => (r, st.comp))
+
+theorem maxFrom_ge (name value : Bytes) : ∀ (rows : List AttrRow) (m : Nat), m ≤ maxFrom name value m rows
+  | [], m => Nat.le_refl m
+  | r :: rs, m => by
+    unfold maxFrom
+    rw [List.foldl_cons]
+    exact Nat.le_trans (Nat.le_max_left _ _) (maxFrom_ge name value rs _)
+
+theorem maxFrom_cons (name value : Bytes) (r : AttrRow) (rs : List AttrRow) (m : Nat) :
+    maxFrom name value m (r :: rs) = maxFrom name value (max m (preLenOf name value r)) rs := rfl
+
+theorem encAttrGo_eq_choice (name value : Bytes) : ∀ (rows : List AttrRow) (st : AttrScan),
+    encAttrGo name value rows st = attrChoice name value rows st
+  | [], st => by
+    unfold encAttrGo attrChoice maxFrom
+    simp only [List.find?_nil, List.foldl_nil, Nat.lt_irrefl, if_false, Option.map_none]
+    cases st.found <;> rfl
+  | r :: rs, st => by
+    have ih := encAttrGo_eq_choice name value rs
+    unfold encAttrGo
+    by_cases hn : (r.name == name) = true
+    · rw [if_pos hn]
+      cases hv : r.value with
+      | none =>
+        simp only
+        rw [ih]
+        have hex : isExactRow name value r = false := by simp [isExactRow, hv]
+        have hpl : preLenOf name value r = 0 := by simp [preLenOf, hn, hv]
+        have hnull : isNullRow name r = true := by simp [isNullRow, hn, hv]
+        unfold attrChoice
+        rw [List.find?_cons, hex, maxFrom_cons, hpl, Nat.max_zero]
+        cases hf : st.found with
+        | none =>
+          simp only [Option.isNone_none, if_true]
+          cases hx : rs.find? (isExactRow name value) with
+          | some e => rfl
+          | none =>
+            simp only
+            by_cases hm : st.comp < maxFrom name value st.comp rs
+            · rw [if_pos hm, if_pos hm, List.find?_cons]
+              have : (preLenOf name value r == maxFrom name value st.comp rs) = false := by
+                rw [hpl]; simp only [beq_eq_false_iff_ne, ne_eq]; omega
+              rw [this]
+            · rw [if_neg hm, if_neg hm, List.find?_cons, hnull]
+              rfl
+        | some f =>
+          simp only [Option.isNone_some, Bool.false_eq_true, if_false]
+          cases hx : rs.find? (isExactRow name value) with
+          | some e => rfl
+          | none =>
+            simp only
+            by_cases hm : st.comp < maxFrom name value st.comp rs
+            · rw [if_pos hm, if_pos hm, List.find?_cons]
+              have : (preLenOf name value r == maxFrom name value st.comp rs) = false := by
+                rw [hpl]; simp only [beq_eq_false_iff_ne, ne_eq]; omega
+              rw [this]
+            · rw [if_neg hm, if_neg hm, hf]
+      | some v =>
+        simp only
+        by_cases he : (v == value) = true
+        · rw [if_pos he]
+          have hex : isExactRow name value r = true := by
+            simp only [isExactRow, hn, hv, Bool.true_and, beq_iff_eq, Option.some.injEq]
+            exact beq_iff_eq.mp he
+          unfold attrChoice
+          rw [List.find?_cons, hex]
+        · rw [if_neg he]
+          have hex : isExactRow name value r = false := by
+            simp only [isExactRow, hn, hv, Bool.true_and]
+            simp only [beq_eq_false_iff_ne, ne_eq, Option.some.injEq]
+            exact fun e => he (beq_iff_eq.mpr e)
+          by_cases hc : (v.length < value.length && st.comp < v.length && isPrefixOf v value) = true
+          · rw [if_pos hc, ih]
+            simp only [Bool.and_eq_true, decide_eq_true_eq] at hc
+            have hpl : preLenOf name value r = v.length := by
+              simp only [preLenOf, hn, hv, if_true, hc.1.1, hc.2, decide_true, Bool.and_self]
+            unfold attrChoice
+            rw [List.find?_cons, hex, maxFrom_cons, hpl, Nat.max_eq_right (Nat.le_of_lt hc.1.2)]
+            cases hx : rs.find? (isExactRow name value) with
+            | some e => rfl
+            | none =>
+              simp only
+              have hge := maxFrom_ge name value rs v.length
+              rw [if_pos (Nat.lt_of_lt_of_le hc.1.2 hge), List.find?_cons, hpl]
+              by_cases hm : v.length < maxFrom name value v.length rs
+              · rw [if_pos hm]
+                have : (v.length == maxFrom name value v.length rs) = false := by
+                  simp only [beq_eq_false_iff_ne, ne_eq]; omega
+                rw [this]
+              · rw [if_neg hm]
+                have hq : maxFrom name value v.length rs = v.length := by omega
+                rw [hq]
+                simp only [beq_self_eq_true, Option.map_some]
+          · rw [if_neg hc, ih]
+            have hpl : max st.comp (preLenOf name value r) = st.comp := by
+              apply Nat.max_eq_left
+              simp only [preLenOf, hn, hv, if_true]
+              split
+              · rename_i h2
+                simp only [Bool.and_eq_true, decide_eq_true_eq] at h2
+                simp only [Bool.and_eq_true, decide_eq_true_eq, not_and] at hc
+                by_cases h3 : st.comp < v.length
+                · exact absurd h2.2 (hc ⟨h2.1, h3⟩)
+                · omega
+              · exact Nat.zero_le _
+            have hle : preLenOf name value r ≤ st.comp := by
+              have := Nat.le_max_right st.comp (preLenOf name value r)
+              rw [hpl] at this; exact this
+            have hnull : isNullRow name r = false := by simp [isNullRow, hv]
+            unfold attrChoice
+            rw [List.find?_cons, hex, maxFrom_cons, hpl]
+            cases hx : rs.find? (isExactRow name value) with
+            | some e => rfl
+            | none =>
+              simp only
+              by_cases hm : st.comp < maxFrom name value st.comp rs
+              · rw [if_pos hm, if_pos hm, List.find?_cons]
+                have : (preLenOf name value r == maxFrom name value st.comp rs) = false := by
+                  simp only [beq_eq_false_iff_ne, ne_eq]; omega
+                rw [this]
+              · rw [if_neg hm, if_neg hm]
+                cases st.found with
+                | some f => rfl
+                | none => simp only; rw [List.find?_cons, hnull]
+    · rw [if_neg hn]
+      have hn' : (r.name == name) = false := by simpa using hn
+      have hex : isExactRow name value r = false := by simp [isExactRow, hn']
+      have hpl : preLenOf name value r = 0 := by simp [preLenOf, hn']
+      have hnull : isNullRow name r = false := by simp [isNullRow, hn']
+      rw [ih]
+      unfold attrChoice
+      rw [List.find?_cons, hex, maxFrom_cons, hpl, Nat.max_zero]
+      cases hx : rs.find? (isExactRow name value) with
+      | some e => rfl
+      | none =>
+        simp only
+        by_cases hm : st.comp < maxFrom name value st.comp rs
+        · rw [if_pos hm, if_pos hm, List.find?_cons]
+          have : (preLenOf name value r == maxFrom name value st.comp rs) = false := by
+            rw [hpl]; simp only [beq_eq_false_iff_ne, ne_eq]; omega
+          rw [this]
+        · rw [if_neg hm, if_neg hm]
+          cases st.found with
+          | some f => rfl
+          | none => simp only; rw [List.find?_cons, hnull]
+
+
+/-- **Which start row `wbxml_tables_get_attr_from_xml(name, value)` picks**, in closed form: the FIRST
+    row (table order) with that name whose value is exactly `value`, wherever it stands; otherwise,
+    if some row with that name has a non-empty proper prefix of `value` as its value, the FIRST row
+    with the LONGEST such prefix (covering that many octets); otherwise the first row with that name
+    and no value (covering nothing); otherwise none. -/
+theorem encAttr_choice (attrs : List AttrRow) (name value : Bytes) :
+    encAttr attrs name value =
+      match attrs.find? (isExactRow name value) with
+      | some e => some (e, value.length)
+      | none =>
+        if 0 < maxFrom name value 0 attrs then
+          (attrs.find? (fun r => preLenOf name value r == maxFrom name value 0 attrs)).map
+            (fun r => (r, maxFrom name value 0 attrs))
+        else (attrs.find? (isNullRow name)).map (fun r => (r, 0)) := by
+  unfold encAttr
+  rw [encAttrGo_eq_choice]
+  rfl
+
+/-- `startRow` (the row behind `exactAName` / `xAttr`) for a literal attribute name is the row
+    `encAttr` picks for the name and value read as C strings. -/
+theorem startRow_literal (c : WCfg) (a : Attr) (s : Bytes) (ha : a.name = .literal s) (hs : s.isEmpty = false)
+    (attrs : List AttrRow) (hattrs : c.lang.attrs = some attrs) :
+    startRow c a = (encAttr attrs (cstrOf s) (cstrOf a.value)).map (·.1) := by
+  unfold startRow
+  rw [ha]
+  simp only [hs, Bool.false_eq_true, if_false, attrLookup, hattrs]
+  cases encAttr attrs (cstrOf s) (cstrOf a.value) with
+  | none => rfl
+  | some p =>
+    obtain ⟨r, n⟩ := p
+    simp only [Option.map_some]
+    by_cases hx : (r.value == some (cstrOf a.value)) = true
+    · simp only [hx, if_true]
+    · simp only [hx, Bool.false_eq_true, if_false]
+
+/-- … and for a token name it is the name's own row when its value prefix matches, none (the name
+    is then written as a literal) when it does not. -/
+theorem startRow_token (c : WCfg) (a : Attr) (r : AttrRow) (ha : a.name = .token r) :
+    startRow c a = match r.value with
+      | none => some r
+      | some p => if p.isPrefixOf (cstrOf a.value) then some r else none := by
+  unfold startRow
+  rw [ha]
+  rfl
+
+/-! ### The typed exact normalisation refines `normNode` (plain languages) -/
+
+theorem canonL_append : ∀ (a b : List Node), canonL (a ++ b) = canonL a ++ canonL b
+  | [], b => by rw [List.nil_append, canonL_nil, List.nil_append]
+  | x :: a, b => by rw [List.cons_append, canonL_cons, canonL_cons, canonL_append a b, List.cons_append]
+
+theorem isText_canon (n : Node) : isText (canon n) = isText n := by
+  cases n with
+  | elt nm a k => rw [canon_elt]; rfl
+  | text s => rw [canon_text]
+  | cdata k => rw [canon]
+  | tree l cs r => rw [canon]
+
+theorem lastText_canonL (l : List Node) : lastText (canonL l) = lastText l := by
+  cases hl : lastText l with
+  | true =>
+    obtain ⟨pre, t, rfl⟩ := lastText_split l hl
+    rw [canonL_append, canonL_cons, canonL_nil, canon_text, lastText_snoc]; rfl
+  | false =>
+    cases l.eq_nil_or_concat with
+    | inl h => rw [h, canonL_nil]; rfl
+    | inr h =>
+      obtain ⟨pre, x, rfl⟩ := h
+      rw [List.concat_eq_append] at hl ⊢
+      rw [canonL_append, canonL_cons, canonL_nil, lastText_snoc, isText_canon]
+      rw [lastText_snoc] at hl; exact hl
+
+theorem canonL_addKid (acc : List Node) (n : Node) : canonL (addKid acc n) = addKid (canonL acc) (canon n) := by
+  cases n with
+  | text s =>
+    rw [canon_text]
+    cases hl : lastText acc with
+    | false =>
+      rw [addKid_text_after _ _ hl, addKid_text_after _ _ (by rw [lastText_canonL]; exact hl), canonL_append,
+        canonL_cons, canonL_nil, canon_text]
+    | true =>
+      obtain ⟨pre, t, rfl⟩ := lastText_split acc hl
+      rw [addKid_text_merge, canonL_append, canonL_append, canonL_cons, canonL_cons, canonL_nil, canon_text, canon_text,
+        addKid_text_merge]
+  | elt nm a k =>
+    rw [addKid_not_text acc (.elt nm a k) rfl, canonL_append, canonL_cons, canonL_nil,
+      addKid_not_text _ _ (by rw [isText_canon]; rfl)]
+  | cdata k =>
+    rw [addKid_not_text acc (.cdata k) rfl, canonL_append, canonL_cons, canonL_nil,
+      addKid_not_text _ _ (by rw [isText_canon]; rfl)]
+  | tree l cs r =>
+    rw [addKid_not_text acc (.tree l cs r) rfl, canonL_append, canonL_cons, canonL_nil,
+      addKid_not_text _ _ (by rw [isText_canon]; rfl)]
+
+theorem canonL_addN (acc : List Node) (n : Node) : canonL (addN acc n) = addN (canonL acc) (canon n) := by
+  cases n with
+  | text s =>
+    rw [canon_text, addN_text, addN_text]
+    cases s with
+    | nil => rfl
+    | cons b t => rw [addChars_cons, addChars_cons, canonL_addKid, canon_text]
+  | elt nm a k => rw [addN_elt, canonL_addKid, canon_elt]; rfl
+  | cdata k =>
+    show canonL (addKid acc (.cdata k)) = _
+    rw [canonL_addKid]
+    have : canon (.cdata k) = .cdata k := by rw [canon]
+    rw [this]; rfl
+  | tree l cs r =>
+    show canonL (addKid acc (.tree l cs r)) = _
+    rw [canonL_addKid]
+    have : canon (.tree l cs r) = .tree l cs r := by rw [canon]
+    rw [this]; rfl
+
+theorem kvPar_false' (l : Lang) (h : (l.id == 1801) = false) (parent : Option Name) : kvPar l parent = false := by
+  cases hk : kvPar l parent with
+  | false => rfl
+  | true => have := kvPar_id _ _ hk; rw [this] at h; cases h
+
+theorem foundAt_mem (l : Lang) (tp : Nat) (name : Name) (hn : nameOver l name = true) (r : TagRow)
+    (h : foundAt l tp name = some r) : ∃ tags, l.tags = some tags ∧ r ∈ tags ∧ r.name = name.cName := by
+  cases name with
+  | token r' =>
+    simp only [foundAt] at h; injection h with h; subst h
+    simp only [nameOver] at hn
+    cases ht : l.tags with
+    | none => simp [ht] at hn
+    | some tags => exact ⟨tags, rfl, by simpa [ht] using hn, rfl⟩
+  | literal s =>
+    simp only [foundAt] at h
+    cases ht : l.tags with
+    | none => simp [ht] at h
+    | some tags => rw [ht] at h; exact ⟨tags, rfl, encTag_mem _ _ _ _ h, encTag_name _ _ _ _ h⟩
+
+theorem nameView_plain (l : Lang) (hts : tagSemOk l = true) (tp : Nat) (name : Name) (hn : nameOver l name = true) :
+    nameView l (foundAt l tp name) name.cName = name.cName := by
+  cases hf : foundAt l tp name with
+  | none => rfl
+  | some r =>
+    obtain ⟨tags, ht, hm, hnm⟩ := foundAt_mem l tp name hn r hf
+    simp only [tagSemOk, ht, List.all_eq_true, Bool.and_eq_true, beq_iff_eq] at hts
+    have h2 := (hts r hm).2
+    simp only [nameView, ht]
+    cases hd : decTag tags r.page r.token with
+    | none => rfl
+    | some d =>
+      rw [hd] at h2
+      simp only [Option.map_some, Option.some.injEq] at h2
+      simp only [h2, hnm]
+
+theorem cName_eq (l : Lang) (hts : tagSemOk l = true) (name : Name) (hn : nameOver l name = true) :
+    name.cName = cstrOf name.xmlName := by
+  cases name with
+  | literal s => rfl
+  | token r =>
+    simp only [nameOver] at hn
+    cases ht : l.tags with
+    | none => simp [ht] at hn
+    | some tags =>
+      simp only [ht, List.contains_iff_mem] at hn
+      simp only [tagSemOk, ht, List.all_eq_true, Bool.and_eq_true] at hts
+      exact (cstrOf_of_nulFree _ (hts r hn).1).symm
+
+theorem startRow_mem (c : WCfg) (a : Attr) (attrs : List AttrRow) (hattrs : c.lang.attrs = some attrs)
+    (ha : attrOver c.lang a = true) (r : AttrRow) (h : startRow c a = some r) : r ∈ attrs ∧ r.name = a.name.cName := by
+  unfold startRow at h
+  cases hn : a.name with
+  | token r0 =>
+    have hr0 : r0 ∈ attrs := by
+      simp only [attrOver, hn, hattrs, Bool.and_eq_true, List.contains_iff_mem] at ha
+      exact ha.2
+    rw [hn] at h
+    simp only at h
+    cases hv : r0.value with
+    | none => rw [hv] at h; injection h with h; subst h; exact ⟨hr0, rfl⟩
+    | some p =>
+      rw [hv] at h
+      simp only at h
+      split at h
+      · injection h with h; subst h; exact ⟨hr0, rfl⟩
+      · cases h
+  | literal s =>
+    rw [hn] at h
+    simp only at h
+    have hmem := attrLookup_mem c.lang (cstrOf s) (cstrOf a.value)
+    have hnm := attrLookup_name c.lang (cstrOf s) (cstrOf a.value)
+    cases hhit : (if s.isEmpty then AttrHit.none else attrLookup c.lang (cstrOf s) (cstrOf a.value)) with
+    | none => rw [hhit] at h; cases h
+    | exact r' =>
+      rw [hhit] at h
+      injection h with h; subst h
+      have hl : attrLookup c.lang (cstrOf s) (cstrOf a.value) = .exact r' := by
+        split at hhit
+        · cases hhit
+        · exact hhit
+      obtain ⟨attrs', ha', hr⟩ := hmem.1 r' hl
+      rw [hattrs] at ha'; injection ha' with ha'; subst ha'
+      exact ⟨hr, hnm.1 r' hl⟩
+    | part r' comp =>
+      rw [hhit] at h
+      injection h with h; subst h
+      have hl : attrLookup c.lang (cstrOf s) (cstrOf a.value) = .part r' comp := by
+        split at hhit
+        · cases hhit
+        · exact hhit
+      obtain ⟨attrs', ha', hr⟩ := hmem.2 r' comp hl
+      rw [hattrs] at ha'; injection ha' with ha'; subst ha'
+      exact ⟨hr, hnm.2 r' comp hl⟩
+
+theorem canonAttr_xAttr (c : WCfg) (attrs : List AttrRow) (hattrs : c.lang.attrs = some attrs)
+    (hnta : noTypedAttr c.lang.id = true) (han : attrNameSemOk c.lang = true) (a : Attr) (ha : attrOver c.lang a = true) :
+    canonAttr (xAttr c a) = normAttr a := by
+  have hnf := attrOver_nulFree c a attrs hattrs ha han
+  have hc : cstrOf a.name.xmlName = a.name.cName := by
+    cases hn : a.name with
+    | literal s => rfl
+    | token r => rw [hn] at hnf; exact cstrOf_of_nulFree _ hnf
+  have hv : vAttrValue c (startRow c a) (cstrOf a.value) = cstrOf a.value := by
+    unfold vAttrValue
+    cases startRow c a with
+    | none => rfl
+    | some r => simp only [noTypedAttr_dt _ hnta r, Bool.false_and, Bool.false_eq_true, if_false]
+  have hx : (exactAName c.lang (startRow c a) a.name.cName).xmlName = a.name.cName := by
+    cases hs : startRow c a with
+    | none => rfl
+    | some r =>
+      obtain ⟨hm, hnm⟩ := startRow_mem c a attrs hattrs ha r hs
+      simp only [attrNameSemOk, hattrs, List.all_eq_true, Bool.and_eq_true, beq_iff_eq] at han
+      have h2 := (han r hm).2
+      simp only [exactAName, hattrs]
+      cases hd : decAttr attrs r.page r.token with
+      | none => rfl
+      | some d =>
+        rw [hd] at h2
+        simp only [Option.map_some, Option.some.injEq] at h2
+        simp only [AName.xmlName, h2, hnm]
+  simp only [canonAttr, xAttr, normAttr, hx, hv, hc]
+
+mutual
+/-- **The typed exact normal form refines `normNode`**: in a plain language (no typed content, no
+    aliases) forgetting the representation of names (`canon`) turns `xNode` into `normNode`. -/
+theorem canon_xNode (c : WCfg) (hpl : plainLang c.lang = true) (hnta : noTypedAttr c.lang.id = true)
+    (hts : tagSemOk c.lang = true) (han : attrNameSemOk c.lang = true) :
+    ∀ (n : Node) (parent : Option Name) (cur : Option TagRow) (tp : Nat), nodeOver c.lang n = true →
+      plainNode n = true → isBinaryTag cur = false → canon (xNode c parent cur tp n) = normNode c n
+  | .elt name attrs kids, parent, cur, tp, hov, hp, _ => by
+    rw [nodeOver, Bool.and_eq_true, Bool.and_eq_true] at hov
+    rw [plainNode] at hp
+    obtain ⟨⟨hname, hattrs⟩, hkids⟩ := hov
+    have hb : isBinaryTag (foundAt c.lang tp name) = false := by
+      cases hf : foundAt c.lang tp name with
+      | none => rfl
+      | some r =>
+        obtain ⟨tags, ht, hm, _⟩ := foundAt_mem c.lang tp name hname r hf
+        simp only [plainLang, ht, Bool.and_eq_true, List.all_eq_true, beq_iff_eq] at hpl
+        simp [isBinaryTag, hpl.2 r hm]
+    rw [xNode_elt, canon_elt, normNode_elt,
+      canonL_xKids c hpl hnta hts han kids (some name) _ _ [] hkids hp hb, canonL_nil]
+    have h1 : canonName (exactName c.lang (foundAt c.lang tp name) name.cName) = normName name := by
+      simp only [canonName, normName, exactName_xmlName]
+      rw [nameView_plain c.lang hts tp name hname, cName_eq c.lang hts name hname]
+    have h2 : (xAttrs c attrs).map canonAttr = normAttrs c attrs := by
+      unfold xAttrs normAttrs
+      cases hat : c.lang.attrs with
+      | none => rfl
+      | some t =>
+        simp only [Option.isSome_some, if_true, List.map_map]
+        apply List.map_congr_left
+        intro a ha
+        exact canonAttr_xAttr c t hat hnta han a (List.all_eq_true.mp hattrs a ha)
+    rw [h1, h2]
+  | .text s, parent, cur, tp, _, _, hb => by
+    have hk : kvPar c.lang parent = false := by
+      simp only [plainLang, Bool.and_eq_true, Bool.not_eq_true'] at hpl
+      exact kvPar_false' c.lang hpl.1.2 parent
+    rw [xNode_text, canon_text, normNode_text]
+    simp only [vText, hb, hk, Bool.false_and, Bool.false_eq_true, if_false]
+  | .cdata k, _, _, _, _, hp, _ => by rw [plainNode] at hp; cases hp
+  | .tree l cs r, _, _, _, _, hp, _ => by rw [plainNode] at hp; cases hp
+theorem canonL_xKids (c : WCfg) (hpl : plainLang c.lang = true) (hnta : noTypedAttr c.lang.id = true)
+    (hts : tagSemOk c.lang = true) (han : attrNameSemOk c.lang = true) :
+    ∀ (kids : List Node) (parent : Option Name) (cur : Option TagRow) (tp : Nat) (acc : List Node),
+      nodesOver c.lang kids = true → plainNodes kids = true → isBinaryTag cur = false →
+      canonL (xKids c parent cur tp kids acc) = normKidsAcc c kids (canonL acc)
+  | [], parent, cur, tp, acc, _, _, _ => by rw [xKids_nil, normKidsAcc_nil]
+  | k :: rest, parent, cur, tp, acc, hov, hp, hb => by
+    rw [nodesOver, Bool.and_eq_true] at hov
+    rw [plainNodes, Bool.and_eq_true] at hp
+    rw [xKids_cons, normKidsAcc_cons,
+      canonL_xKids c hpl hnta hts han rest parent none _ _ hov.2 hp.2 rfl, canonL_addN,
+      canon_xNode c hpl hnta hts han k parent cur tp hov.1 hp.1 hb]
+end
+
+/-- For a plain language `rt_preserves_partial`'s normal form is the `canon` of the exact one. -/
+theorem canon_normNodeTyped (c : WCfg) (hpl : plainLang c.lang = true) (hnta : noTypedAttr c.lang.id = true)
+    (hts : tagSemOk c.lang = true) (han : attrNameSemOk c.lang = true) (r : Node)
+    (hov : nodeOver c.lang r = true) (hp : plainNode r = true) : canon (normNodeTyped c r) = normNode c r :=
+  canon_xNode c hpl hnta hts han r none none 0 hov hp rfl
+
 end Wbxml.Lemmas.Rt
